@@ -260,11 +260,37 @@ func (e *Engine) runC12(ch *kernel.Chooser, st *kernel.Stats) kernel.RunResult {
 		pb.WithSmartSemicolon(false).WithTolerantMode(false)
 		st.Inc("probe.strict_builder_was_tolerant_before")
 	}
+	// "strict" means not tolerant; smart semicolons are an independent option and may be on. Their one documented
+	// effect - a `(` or `[` that starts a line does not continue the previous expression - is a deliberate
+	// deviation from JavaScript, so texts with such a token are parsed by the plain strict builder.
+	smartPB := (*parser.Builder)(nil)
+	if ch.Bool(1, 4) {
+		smartPB = parser.NewBuilder(lexer.NewBuilder()).WithSmartSemicolon(true)
+		st.Inc("probe.strict_with_smart_semicolons")
+	}
+	plainPB := pb
 	seen := map[string]bool{}
 	for _, f := range faults {
 		st.Inc("fault." + f.Kind)
 		if f.Kind == "trunc" {
 			st.Inc("fault.trunc_in_" + f.Class)
+		}
+		pb = plainPB
+		if smartPB != nil {
+			lineStart := false
+			if tk, pan := xutil.LexAll(lexer.NewBuilder(), f.Text, len(f.Text)+8); pan == nil {
+				for _, t := range tk {
+					if (t.Type == token.LPAREN || t.Type == token.LBRACKET) && t.AfterNewline {
+						lineStart = true
+					}
+				}
+			} else {
+				lineStart = true
+			}
+			if !lineStart {
+				pb = smartPB
+				st.Inc("c12.parsed_with_smart_semicolons")
+			}
 		}
 		o := xutil.Parse(pb, f.Text)
 		kind := ""
